@@ -32,15 +32,30 @@ Select(k) == /\ k \in Tasks /\ sel' = k
 SelectInvalid(k) == /\ k \notin Tasks /\ UNCHANGED vars
                     /\ Emit("Select", <<k>>, "ValueError")
 
-Add == /\ cnt < MaxAdds
-       /\ LET b == bufs[sel] IN
-            bufs' = [bufs EXCEPT ![sel] =
-                       [store |-> [b.store EXCEPT ![b.ins + 1] = cnt + 1],
-                        ins |-> (b.ins + 1) % N, len |-> Min(b.len + 1, N)]]
-       /\ active' = active \cup {sel}
-       /\ hist' = [hist EXCEPT ![sel] = Append(@, cnt + 1)]
-       /\ cnt' = cnt + 1 /\ UNCHANGED sel
+(* add_sample: the whole record goes to the selected task's ring, which becomes active *)
+Route == /\ cnt < MaxAdds
+         /\ LET b == bufs[sel] IN
+              bufs' = [bufs EXCEPT ![sel] =
+                         [store |-> [b.store EXCEPT ![b.ins + 1] = cnt + 1],
+                          ins |-> (b.ins + 1) % N, len |-> Min(b.len + 1, N)]]
+         /\ active' = active \cup {sel}
+         /\ hist' = [hist EXCEPT ![sel] = Append(@, cnt + 1)]
+         /\ cnt' = cnt + 1 /\ UNCHANGED sel
+
+Add == /\ Route
        /\ Emit("Add", <<cnt + 1>>, <<>>)
+
+(* How a call of add_sample is spelled (see Ring.tla: value form of the documented-float fields, integral or   *)
+(* fractional values, keyword order).  Every task's ring allocates its storage on the first call routed to it, *)
+(* so "the first call" happens once per task, at any point of the history.  Invisible to the abstraction.      *)
+ValueForms == {"float", "pyint", "npint", "npuint8", "jaxint"}
+Orders == 0..2
+Spellings == {s \in [form : ValueForms, half : 0..1, ord : Orders] : s.form # "float" => s.half = 0}
+(* bound: fractional floats in every keyword order, two integer forms in the declared order *)
+SpellingsSome == {s \in Spellings : (s.form = "float" /\ s.half = 1) \/ (s.form \in {"pyint", "jaxint"} /\ s.ord = 0)}
+
+AddAs(s) == /\ Route
+            /\ Emit("Add", <<cnt + 1, s.form, s.half, s.ord>>, <<>>)
 
 IndexVectors(t) == UNION {[1..b -> 0..(bufs[t].len - 1)] : b \in 1..MaxBatch}
 (* the task is drawn from the active set, the rows from that task's buffer *)
@@ -58,6 +73,13 @@ Next == \/ \E k \in Tasks : Select(k)
         \/ LenQuery
 
 Spec == Init /\ [][Next]_vars
+
+(* the same operations with every call of add_sample spelled in every way *)
+NextCalls == \/ \E k \in Tasks : Select(k)
+             \/ \E k \in {-1, K, K + 1} : SelectInvalid(k)
+             \/ \E s \in SpellingsSome : AddAs(s)
+             \/ \E t \in active : \E idx \in IndexVectors(t) : Sample(t, idx)
+             \/ LenQuery
 ----------------------------------------------------------------------------
 LastK(s, k) == {s[i] : i \in (Len(s) - k + 1)..Len(s)}
 
